@@ -91,12 +91,23 @@ def resolver_cache_key_complete(ctx: Ctx, rule: str) -> int:
         if not any("ModuleType" in t for t in ann.values()):
             continue  # keyed by a canonical path that already names the module
         fl = flow_of(prog, f)
+        # the cache is whatever table is indexed / probed with a pair whose first component is the local path being looked up (the field may be renamed, or held in a local)
+        path_params = {p_ for p_, t in ann.items() if "LocalDepPath" in t}
         keys = []
+
+        def _is_pair_key(k_: ast.AST) -> bool:
+            es_ = [k_]
+            if isinstance(k_, ast.Name):
+                try:
+                    es_ = [d.value for d in fl.defs_of_use(k_) if d.value is not None]
+                except Exception:
+                    es_ = []
+            return any(isinstance(e_, ast.Tuple) and e_.elts and isinstance(e_.elts[0], ast.Name) and e_.elts[0].id in path_params for e_ in es_)
         for x in f.own_nodes():
-            if isinstance(x, ast.Subscript) and isinstance(x.value, ast.Attribute) and x.value.attr == "cached_objects":
+            if isinstance(x, ast.Subscript) and isinstance(x.value, (ast.Attribute, ast.Name)) and _is_pair_key(x.slice):
                 keys.append(x.slice)
-            elif isinstance(x, ast.Compare) and len(x.ops) == 1 and isinstance(x.ops[0], (ast.In, ast.NotIn)) and isinstance(x.comparators[0], ast.Attribute) \
-                    and x.comparators[0].attr == "cached_objects":
+            elif isinstance(x, ast.Compare) and len(x.ops) == 1 and isinstance(x.ops[0], (ast.In, ast.NotIn)) and isinstance(x.comparators[0], (ast.Attribute, ast.Name)) \
+                    and _is_pair_key(x.left):
                 keys.append(x.left)
         seen_defs = set()
         for k in keys:
@@ -122,7 +133,11 @@ def resolver_cache_key_complete(ctx: Ctx, rule: str) -> int:
                             roots = [el]
                     for r_ in roots + [el]:
                         calls = [c for c in ast.walk(r_) if isinstance(c, ast.Call)]
-                        is_mod_path = any((prog.dotted(f, c.func) or unparse(c.func)).split(".")[-1] in ("_mod_path", "function_path") for c in calls)
+                        mod_params = {p_ for p_, t in ann.items() if "ModuleType" in t}
+                        # the path of the module: a package function applied to the module being looked into (whatever the function is called)
+                        is_mod_path = any((prog.dotted(f, c.func) or unparse(c.func)).split(".")[-1] in ("_mod_path", "function_path") for c in calls) or any(
+                            len(c.args) == 1 and isinstance(c.args[0], ast.Name) and c.args[0].id in mod_params and any(g_.module.name.startswith("dds") for g_ in prog.callees(f, c, ctx._types)[0])
+                            for c in calls)
                         proj = [c for c in calls if isinstance(c.func, ast.Attribute) and c.func.attr in LOSSY] + [y for y in ast.walk(r_) if isinstance(y, ast.Subscript) and "parts" in unparse(y.value, 60)]
                         if is_mod_path and not proj and r_ is not el or (is_mod_path and not proj and isinstance(el, ast.Call)):
                             whole = True
